@@ -262,6 +262,13 @@ def build(case):
     for op in case['ops']:
         if impl.apply_op(g, op) != 'ok':
             rejected += 1
+    # state-preserving interactions (see harness/gen.py): rejected edges, partially failing bulk adders, detours through
+    # a mixed state, abused exports, look-ups of absent things - the derived graphs must not notice any of them
+    from harness import gen as _gen
+    key = ('ts', repr(case['ops'])[:2000])
+    if all(len(op) < 6 or op[5] for op in case['ops'] if op[0] == 'add_edge'):      # validated builds only
+        _gen.stress(g, key)
+    _gen.query_noise(g, key)
     return g, rejected
 
 
@@ -276,11 +283,34 @@ def index_order(g):
 def reply_graph(f):
     try:
         r = f()
+        if not getattr(reply_graph, 'no_vandal', False):
+            # derived graphs are snapshots: vandalise the first result, ask again, and observe the SECOND answer
+            try:
+                vandalise(r)
+            except Exception:  # noqa: BLE001
+                pass
+            r = f()
     except RecursionError:
         raise
     except Exception as e:  # noqa: BLE001 - the class of ANY exception is the observation
         return None, 'err ' + type(e).__name__
     return r, 'ok ' + impl.enc_graph(r)
+
+
+def vandalise(x):
+    """edit a derived graph in every way a caller could: drop a node and an edge, add junk, touch metadata"""
+    es = x.get_edges()
+    if es:
+        e = es[0]
+        e.meta['__vandal'] = 1
+        x.delete_edge(e.source.identifier, e.destination.identifier)
+    ns = x.get_nodes()
+    if ns:
+        ns[-1].meta['__vandal'] = [1]
+        if len(ns) > 1:
+            x.delete_node(ns[0].identifier)
+    x.add_node('__vandal')
+    x.meta['__vandal'] = True
 
 
 def reply_bool(f):
